@@ -88,7 +88,12 @@ class Grammar:
         self.class_grammar: dict[str, ast.AST] = {}  # segment class name / grammar name -> grammar expression
         self.class_bases: dict[str, list[str]] = {}
         self.class_locals: dict[str, dict[str, ast.AST]] = {}
+        self.chain = chain
+        self.layer_grammar: dict[tuple[str, str], ast.AST] = {}  # (dialect layer, class name) -> the grammar that layer itself defines
+        self.layer_locals: dict[tuple[str, str], dict[str, ast.AST]] = {}
+        self._layer = "ansi"
         for d in chain:  # base first, so that overrides win
+            self._layer = d
             self._load(os.path.join(root, "dialects", f"dialect_{d}.py"))
         self._children_cache: dict[str, frozenset] = {}
         self.type_classes: dict[str, list[str]] = {}
@@ -129,7 +134,8 @@ class Grammar:
                         locals_[s.targets[0].id] = s.value
                     elif isinstance(s, ast.AnnAssign) and isinstance(s.target, ast.Name) and s.value is not None and s.target.id not in ("type", "match_grammar", "parse_grammar"):
                         locals_[s.target.id] = s.value
-                self.class_locals[st.name] = locals_
+                self.class_locals[st.name] = {**self.class_locals.get(st.name, {}), **locals_}
+                self.layer_locals[(self._layer, st.name)] = locals_
                 for s in st.body:
                     if isinstance(s, ast.Assign) and len(s.targets) == 1 and isinstance(s.targets[0], ast.Name):
                         if s.targets[0].id == "type" and isinstance(s.value, ast.Constant):
@@ -151,6 +157,7 @@ class Grammar:
                     self.class_type[st.name] = typ
                 if gram is not None:
                     self.class_grammar[st.name] = gram
+                    self.layer_grammar[(self._layer, st.name)] = gram
                 elif st.name not in self.class_grammar:
                     for b in bases:
                         if b in self.class_grammar:
@@ -210,9 +217,34 @@ class Grammar:
         if isinstance(e, ast.Attribute) and e.attr in ("match_grammar", "parse_grammar") and isinstance(e.value, (ast.Name, ast.Attribute)):
             cname = e.value.id if isinstance(e.value, ast.Name) else e.value.attr
             g = self.class_grammar.get(cname)
-            if g is not None and ("G:" + cname) not in seen:
-                seen.add("G:" + cname)
+            key = "G:" + cname
+            if isinstance(e.value, ast.Attribute) and isinstance(e.value.value, ast.Name) and e.value.value.id in self.chain:
+                # `ansi.X.match_grammar` inside a dialect that overrides X: the grammar X has in that parent layer (or below it)
+                layer = e.value.value.id
+                for d in reversed(self.chain[: self.chain.index(layer) + 1]):
+                    if (d, cname) in self.layer_grammar:
+                        g = self.layer_grammar[(d, cname)]
+                        key = f"G:{d}.{cname}"
+                        break
+            if g is not None and key not in seen:
+                seen.add(key)
                 self._refs(g, seen, out, brack)
+            return
+        if isinstance(e, ast.Attribute) and isinstance(e.value, (ast.Name, ast.Attribute)) and e.attr not in ("match_grammar", "parse_grammar"):
+            # `ansi.X._helper_grammar` / `X._helper_grammar`: a class-level grammar fragment of X (in the named layer or below it)
+            cname = e.value.id if isinstance(e.value, ast.Name) else e.value.attr
+            layers = list(reversed(self.chain))
+            if isinstance(e.value, ast.Attribute) and isinstance(e.value.value, ast.Name) and e.value.value.id in self.chain:
+                layers = list(reversed(self.chain[: self.chain.index(e.value.value.id) + 1]))
+            for d in layers:
+                loc_ = self.layer_locals.get((d, cname), {})
+                if e.attr in loc_:
+                    key = f"L:{d}.{cname}.{e.attr}"
+                    if key not in seen:
+                        seen.add(key)
+                        seen.add(cname)
+                        self._refs(loc_[e.attr], seen, out, brack)
+                    return
             return
         if isinstance(e, (ast.List, ast.Tuple)):
             for x in e.elts:
